@@ -186,28 +186,47 @@ static void check_collections(vr::Runner &R, const vg::EdgeList &el, const std::
 }
 
 // ---------------- C16 ----------------
-static void check_forest(vr::Runner &R, const vg::EdgeList &el, const std::vector<double> &w, B &b, const std::string &extra) {
+// all observations of one ForestIndex object against union-find; `how` names the way the object was obtained
+static bool verify_forest(vr::Runner &R, const parmcb::ForestIndex<Graph> &fi, const vg::EdgeList &el, const B &b, const std::string &c0, const char *how) {
     const char *site = "ForestIndex";
-    std::string c = cs_of(el, w, extra);
-    parmcb::ForestIndex<Graph> fi(b.g);
-    R.count(C_EVAL);
+    std::string c = c0 + ";object=" + how;
     int m = el.m(), n = el.n, comps = vg::components(el), dim = m - n + comps;
-    if ((int) fi.weak_connected_components() != comps) { R.violation({site, "forest-components", c, "weak_connected_components() = " + std::to_string(fi.weak_connected_components()) + ", true " + std::to_string(comps)}); return; }
-    if ((long) fi.cycle_space_dimension() != dim) { R.violation({site, "forest-dimension", c, "cycle_space_dimension() = " + std::to_string(fi.cycle_space_dimension()) + ", true " + std::to_string(dim)}); return; }
+    if ((int) fi.weak_connected_components() != comps) { R.violation({site, "forest-components", c, "weak_connected_components() = " + std::to_string(fi.weak_connected_components()) + ", true " + std::to_string(comps)}); return false; }
+    if ((long) fi.cycle_space_dimension() != dim) { R.violation({site, "forest-dimension", c, "cycle_space_dimension() = " + std::to_string(fi.cycle_space_dimension()) + ", true " + std::to_string(dim)}); return false; }
     std::vector<int> seen(m, 0);
     vg::UF uf(n); int forest_edges = 0;
     for (int i = 0; i < m; ++i) {
         std::size_t idx;
-        try { idx = fi(b.edges[i]); } catch (std::exception &e) { R.violation({site, "forest-lookup", c, std::string("edge -> index lookup threw: ") + e.what()}); return; }
-        if (idx >= (std::size_t) m) { R.violation({site, "forest-range", c, "index " + std::to_string(idx) + " out of 0..m-1"}); return; }
-        if (seen[idx]++) { R.violation({site, "forest-not-injective", c, "index " + std::to_string(idx) + " assigned twice"}); return; }
+        try { idx = fi(b.edges[i]); } catch (std::exception &e) { R.violation({site, "forest-lookup", c, std::string("edge -> index lookup threw: ") + e.what()}); return false; }
+        if (idx >= (std::size_t) m) { R.violation({site, "forest-range", c, "index " + std::to_string(idx) + " out of 0..m-1"}); return false; }
+        if (seen[idx]++) { R.violation({site, "forest-not-injective", c, "index " + std::to_string(idx) + " assigned twice"}); return false; }
         const Edge &back = fi(idx);
-        if (back.get_property() != b.edges[i].get_property()) { R.violation({site, "forest-not-inverse", c, "index -> edge lookup of " + std::to_string(idx) + " does not return the edge it was assigned to"}); return; }
+        if (back.get_property() != b.edges[i].get_property()) { R.violation({site, "forest-not-inverse", c, "index -> edge lookup of " + std::to_string(idx) + " does not return the edge it was assigned to"}); return false; }
         bool onf = fi.is_on_forest(b.edges[i]);
-        if (onf != ((long) idx >= dim)) { R.violation({site, "forest-flag", c, "is_on_forest disagrees with index >= dimension for index " + std::to_string(idx)}); return; }
-        if (onf) { ++forest_edges; if (!uf.unite(el.e[i].first, el.e[i].second)) { R.violation({site, "forest-cyclic", c, "edges reported on the forest contain a cycle"}); return; } }
+        if (onf != ((long) idx >= dim)) { R.violation({site, "forest-flag", c, "is_on_forest disagrees with index >= dimension for index " + std::to_string(idx)}); return false; }
+        if (onf) { ++forest_edges; if (!uf.unite(el.e[i].first, el.e[i].second)) { R.violation({site, "forest-cyclic", c, "edges reported on the forest contain a cycle"}); return false; } }
     }
-    if (forest_edges != n - comps) R.violation({site, "forest-size", c, std::to_string(forest_edges) + " forest edges, a spanning forest has " + std::to_string(n - comps)});
+    if (forest_edges != n - comps) { R.violation({site, "forest-size", c, std::to_string(forest_edges) + " forest edges, a spanning forest has " + std::to_string(n - comps)}); return false; }
+    return true;
+}
+
+// A ForestIndex is judged however it was obtained: constructed from the graph, copy-constructed, or assigned over an
+// index that previously described ANOTHER graph (a triangle with a pendant edge and an isolated vertex: dimension 1,
+// 2 components), and self-assigned. The class ships hand-written copy operations, so these are part of its surface.
+static void check_forest(vr::Runner &R, const vg::EdgeList &el, const std::vector<double> &w, B &b, const std::string &extra) {
+    std::string c = cs_of(el, w, extra);
+    parmcb::ForestIndex<Graph> fi(b.g);
+    R.count(C_EVAL);
+    if (!verify_forest(R, fi, el, b, c, "constructed")) return;
+    parmcb::ForestIndex<Graph> cp(fi);
+    if (!verify_forest(R, cp, el, b, c, "copy-constructed")) return;
+    static vg::EdgeList other_el = [] { vg::EdgeList g; g.n = 5; g.e = {{0, 1}, {1, 2}, {0, 2}, {2, 3}}; return g; }();
+    static B other(other_el, std::vector<double>(4, 1.0));
+    parmcb::ForestIndex<Graph> as(other.g);
+    as = fi;
+    if (!verify_forest(R, as, el, b, c, "assigned-over-another-graph's-index")) return;
+    as = *&as;
+    verify_forest(R, as, el, b, c, "self-assigned");
 }
 
 static void run_case(vr::Runner &R, const vg::EdgeList &el, const std::vector<double> &w, B &b, const std::vector<uint64_t> &cyc, int dim) {
